@@ -147,6 +147,34 @@ def run_c19(ctx):
                     if real != spec:
                         ctx.violations.append(dict(property="C19", what="%s Gantt intervals are not the maximal runs of the log" % cls,
                                                    case=case, real=str(real), expected=str(spec)))
+                    # chart rows produced by the team / workplace that owns the resource
+                    unit = datetime.timedelta(hours=6)
+                    owner = BaseTeam("tm", worker_list=[obj]) if cls == "worker" else BaseWorkplace("wp", facility_list=[obj])
+                    for vr, va in ((False, False), (True, False), (True, True)):
+                        try:
+                            rows = owner.create_data_for_gantt_plotly(init, unit, finish_margin=margin, view_ready=vr, view_absence=va)
+                        except Exception as e:
+                            ctx.violations.append(dict(property="C19", what="%s rows raised %r" % (cls, e), case=case))
+                            continue
+                        kind = {"READY": 0, "WORKING": 1, "ABSENCE": 2}
+                        got = [(F((datetime.datetime.strptime(r["Start"], "%Y-%m-%d %H:%M:%S") - init).total_seconds()),
+                                F((datetime.datetime.strptime(r["Finish"], "%Y-%m-%d %H:%M:%S") - init).total_seconds()), kind[r["State"]]) for r in rows]
+                        exp_rows = ([(F(a) * 21600, (F(a) + n) * 21600, 0) for a, n in spec[0]] if vr else []) + \
+                                   ([(F(a) * 21600, (F(a) + n) * 21600, 2) for a, n in spec[2]] if va else []) + \
+                                   [(F(a) * 21600, (F(a) + n) * 21600, 1) for a, n in spec[1]]
+                        if got != exp_rows:
+                            ctx.violations.append(dict(property="C19", what="%s chart rows do not map the runs of the log to init + k*unit" % cls, case=case,
+                                                       real=str(got), expected=str(exp_rows)))
+                        req = ["FN", "plotlyR", "0", "21600", "1" if vr else "0", "1" if va else "0", codec.rat_str(margin), str(len(seq))] + [str(x) for x in seq]
+                        ans2 = drv.ask(req)
+                        exp2 = [str(len(got))]
+                        for a, b2, k2 in got:
+                            exp2 += [codec.rat_str(a), codec.rat_str(b2), str(k2)]
+                        cell = ctx.matrix.setdefault("plotlyR", dict(executions=0, disagreements=0))
+                        cell["executions"] += 1
+                        if ans2 != " ".join(exp2):
+                            cell["disagreements"] += 1
+                            ctx.footprint_disagreements.append(dict(phase="plotlyR", case=case, real=exp2, model=ans2))
                     ans = drv.ask(["FN", "ganttR", codec.rat_str(margin), str(len(seq))] + [str(x) for x in seq])
                     exp = " ".join(enc_ivs(real[0]) + enc_ivs(real[1]) + enc_ivs(real[2]))
                     cell = ctx.matrix.setdefault("ganttR", dict(executions=0, disagreements=0))
